@@ -99,11 +99,11 @@ pub(crate) fn run_scheduling_solver(
             let mut has_variant = false;
             for (v_idx, rq) in rqv.requests_with_ids() {
                 if rq.is_multi_node() {
+                    // (the fake workers of a new-worker query belong to no worker group)
                     if worker.is_free()
                         && worker_groups
                             .get(&worker.configuration.group)
-                            .unwrap()
-                            .is_capable_to_run_rq(rq, now, worker_map)
+                            .is_some_and(|g| g.is_capable_to_run_rq(rq, now, worker_map))
                     {
                         set_placement_name(&mut solver, worker.id, batch.resource_rq_id, v_idx);
                         let v = create_mn_var(
@@ -185,6 +185,7 @@ pub(crate) fn run_scheduling_solver(
                 .free_resources
                 .get(ResourceId::new(r as u32));
             if free.is_max() {
+                c.clear();
                 continue;
             }
             if !c.is_empty() {
